@@ -7,6 +7,8 @@ import (
 	"sort"
 	"strconv"
 	"strings"
+	"sync"
+	"sync/atomic"
 	"testing"
 	"time"
 
@@ -102,6 +104,9 @@ func c24Exec(t *verifh.T, c verifh.Case) {
 	clk := &c24Clock{Mock: clock.NewMock()}
 	f := healthcheck.NewPassiveFilter(
 		healthcheck.PassiveFilterConfig{Fails: int(fails), FailTimeout: time.Duration(timeout)}, clk)
+	// one Passive per case (the object clients hold): its Failed is the production call site
+	list := &c24List{set: stringset.New()}
+	passive := healthcheck.NewPassive(list, f)
 	t.Cfg(c.Cfg...)
 	used := map[int]bool{}
 	do := func(op []string) {
@@ -109,13 +114,17 @@ func c24Exec(t *verifh.T, c verifh.Case) {
 			return
 		}
 		switch op[1] {
-		case "failed":
+		case "failed", "pfailed":
 			if len(op) != 3 {
 				return
 			}
 			if h, ok := c24Host(op[2]); ok {
 				used[h] = true
-				f.Failed(c24Addr(h))
+				if op[1] == "pfailed" {
+					passive.Failed(c24Addr(h)) // Passive.Failed -> PassiveFilter.Failed
+				} else {
+					f.Failed(c24Addr(h))
+				}
 				t.Op(op[1:], "ok")
 			}
 		case "run", "resolve":
@@ -129,8 +138,8 @@ func c24Exec(t *verifh.T, c verifh.Case) {
 			if op[1] == "run" {
 				t.Op(op[1:], c24Sorted(f.Run(set)))
 			} else {
-				p := healthcheck.NewPassive(&c24List{set}, f)
-				t.Op(op[1:], c24Sorted(p.Resolve()))
+				list.set = set
+				t.Op(op[1:], c24Sorted(passive.Resolve()))
 			}
 		case "adv":
 			if len(op) != 3 {
@@ -216,12 +225,12 @@ func TestVerif_C24(t *testing.T) {
 		exhaust(fmt.Sprintf("one_host_fails%d", fails), c24Cfg(fails, 10), alphaOne, verifh.Scale(5, 7))
 	}
 	// (a1') lapse of a mark followed by fresh failures, deeper over a 4-symbol alphabet
-	alphaLapse := [][]string{c24Op("failed", "a0"), c24Op("run", "a0,a1"), c24Op("adv", "11"), c24Op("adv", "4")}
+	alphaLapse := [][]string{c24Op("pfailed", "a0"), c24Op("run", "a0,a1"), c24Op("adv", "11"), c24Op("adv", "4")}
 	exhaust("lapse_fails2", c24Cfg(2, 10), alphaLapse, verifh.Scale(7, 9))
 	exhaust("lapse_fails3", c24Cfg(3, 10), alphaLapse, verifh.Scale(6, 9))
 	// (a2) two hosts and Passive.Resolve
 	alphaTwo := [][]string{
-		c24Op("failed", "a0"), c24Op("failed", "a1"), c24Op("run", "a0,a1"), c24Op("resolve", "a0,a1"), c24Op("resolve", "a0"),
+		c24Op("pfailed", "a0"), c24Op("failed", "a1"), c24Op("run", "a0,a1"), c24Op("resolve", "a0,a1"), c24Op("resolve", "a0"),
 		c24Op("adv", "5"), c24Op("adv", "11"),
 	}
 	exhaust("two_hosts", c24Cfg(2, 10), alphaTwo, verifh.Scale(5, 6))
@@ -254,7 +263,7 @@ func TestVerif_C24(t *testing.T) {
 			var o []string
 			switch x := r.Intn(100); {
 			case x < 45:
-				o = c24Op("failed", fmt.Sprintf("a%d", r.Intn(nh)))
+				o = c24Op(r.Pick("failed", "pfailed"), fmt.Sprintf("a%d", r.Intn(nh)))
 			case x < 62:
 				var sub []string
 				for _, a := range all {
@@ -299,5 +308,86 @@ func TestVerif_C24(t *testing.T) {
 		}
 		c24Exec(tr, cs)
 		tr.Count("random_cases", 1)
+	}
+}
+
+// ---------------------------------------------------------------- concurrent callers (machine phc)
+
+// TestVerif_C24Concurrent exercises the filter's mutex: goroutines call Failed / Run / Resolve on one
+// filter at the same time with the clock frozen. Judged by the rule itself where it is
+// interleaving-independent: Run returns listed hosts only, and once all callers are done a host is
+// filtered exactly when it collected at least Fails failures (all of them at the same instant, hence
+// inside one window). The thorough tier builds this with -race.
+func TestVerif_C24Concurrent(t *testing.T) {
+	tr := verifh.Open("phc")
+	defer tr.Close()
+	if _, replayOnly := verifh.InputCases("phc"); replayOnly {
+		return
+	}
+	for round := 0; round < verifh.Scale(40, 400); round++ {
+		fails := 1 + round%4
+		clk := &c24Clock{Mock: clock.NewMock()}
+		f := healthcheck.NewPassiveFilter(healthcheck.PassiveFilterConfig{Fails: fails, FailTimeout: 10 * time.Second}, clk)
+		all := stringset.New()
+		for h := 0; h < c24NumHosts; h++ {
+			all.Add(c24Addr(h))
+		}
+		passive := healthcheck.NewPassive(&c24List{all}, f)
+		tr.Cfg(fmt.Sprintf("fails=%d", fails))
+		var wg sync.WaitGroup
+		var mu sync.Mutex
+		problems := map[string]string{}
+		count := make([]int32, c24NumHosts)
+		for g := 0; g < 4; g++ {
+			wg.Add(1)
+			go func(g int) {
+				defer wg.Done()
+				r := verifh.NewRand(verifh.Seed(), fmt.Sprintf("c24c-%d-%d", round, g))
+				for k := 0; k < 200; k++ {
+					switch x := r.Intn(10); {
+					case x < 4:
+						h := r.Intn(c24NumHosts)
+						if r.Chance(1, 6) || h > 0 { // host 0 fails rarely: often stays below Fails
+							atomic.AddInt32(&count[h], 1)
+							if r.Chance(1, 2) {
+								passive.Failed(c24Addr(h))
+							} else {
+								f.Failed(c24Addr(h))
+							}
+						}
+					case x < 8:
+						for a := range f.Run(all) {
+							if !all.Has(a) {
+								mu.Lock()
+								problems["filter-unlisted"] = "Run returned a host that was not listed"
+								mu.Unlock()
+							}
+						}
+					default:
+						if len(passive.Resolve()) == 0 {
+							mu.Lock()
+							problems["resolve-empty"] = "Passive.Resolve returned no host for a non-empty list"
+							mu.Unlock()
+						}
+					}
+				}
+			}(g)
+		}
+		wg.Wait()
+		healthy := f.Run(all)
+		for h := 0; h < c24NumHosts; h++ {
+			n := int(atomic.LoadInt32(&count[h]))
+			if n >= fails && healthy.Has(c24Addr(h)) {
+				problems["filter-missed"] = fmt.Sprintf("a%d has %d failures at one instant (Fails=%d) but is returned", h, n, fails)
+			}
+			if n < fails && !healthy.Has(c24Addr(h)) {
+				problems["filter-spurious"] = fmt.Sprintf("a%d has only %d failures (Fails=%d) but is filtered out", h, n, fails)
+			}
+		}
+		for k, d := range problems {
+			tr.PropFail(k, verifh.Str(d))
+		}
+		tr.Op([]string{"concurrent"}, fmt.Sprintf("healthy=%d", len(healthy)))
+		tr.End()
 	}
 }
